@@ -253,6 +253,9 @@ func c02Run(c c02Case, base string) (res c02Result) {
 		if len(e.Args) >= 2 {
 			m["v"] = fmt.Sprint(e.Args[1])
 		}
+		if len(e.Args) >= 3 {
+			m["w"] = fmt.Sprint(e.Args[2])
+		}
 		res.Trace = append(res.Trace, m)
 	}
 	return
